@@ -20,9 +20,13 @@
        distributed links: every outcome in which the links of the end are
        shared out (each former neighbour still linked to one of the k segments,
        no link that is not a copy of an original link) is accepted -- keeping
-       all copies is the special case "no distribution";
-     * a self-link (both ends on the multiplied segment) may be copied onto a
-       copy itself or between two of the k segments; every copy must carry one. *)
+       all copies is the special case "no distribution".
+   An edge of the segment WITH ITSELF (self-loop, hairpin, self-containment) is an edge of
+   the original to the neighbour "itself": a faithful copy carries it as an edge with itself
+   ("to the same neighbours": what the original is to itself, the copy is to itself).  An
+   edge between two different members of the k segments is invented: the original had no
+   edge to another segment there, and it would give the original (or a copy) a dovetail
+   more on one of its ends than the original had.                                       *)
 EXTENDS Gfa
 
 IsSegLine(l)  == l.rt = "S"
@@ -68,13 +72,17 @@ Claimed(pre, s) == \A i \in EdgeIdxOf(pre, {s}) : IsDovetail(pre[i]) \/ IsContai
 CopyNames(pre, post) == SegNameSet(post) \ SegNameSet(pre)
 Group(pre, post, s) == {s} \cup CopyNames(pre, post)
 
-\* "k-1 copies with fresh, distinct identifiers (the requested ones, if given)"
-NamesOK(pre, post, args) ==
+\* every identifier that a line mentions (whether a line with that identifier exists or not)
+MentionedIds(L) == UNION {RefIdSet(L[i]) : i \in Idx(L)}
+\* "k-1 copies with fresh, distinct identifiers (the requested ones, if given)": fresh against
+\* every identifier in use -- the lines of the graph (pre) and `used`, the identifiers that are
+\* in use otherwise (placeholders: a segment that is mentioned but not defined yet)
+NamesOK(pre, post, args, used) ==
   LET C == CopyNames(pre, post) IN
   /\ args.seg \in SegNameSet(post)
   /\ Cardinality(C) = args.k - 1
   /\ Cardinality({i \in SegIdx(post) : post[i].name \in C}) = args.k - 1     \* distinct lines
-  /\ C \cap UsedIds(pre) = {}
+  /\ C \cap (UsedIds(pre) \cup MentionedIds(pre) \cup used) = {}
   /\ args.names # <<>> => C = Rng(args.names)
 
 \* "with identical sequence and tags" (the values of the count tags apart)
@@ -96,7 +104,8 @@ CopyOf(e1, e, N, s) == EdgeCore(BackTo(e1, N, s)) = EdgeCore(e)
      x.s the segment, x.k the factor, x.N the k segments of post (original + copies),
      x.E the edges of the segment in pre, x.P the edges of post on a member of x.N,
      x.pc / x.bc  the content of the edges x.E / of the edges x.P read back onto the original,
-     x.qc  the content of all edges of post                                           *)
+     x.qc  the content of all edges of post,
+     x.cross  the edges of post that join two different members of x.N                *)
 Ctx(pre, post, args) ==
   LET s == args.seg
       N == Group(pre, post, s)
@@ -104,23 +113,23 @@ Ctx(pre, post, args) ==
       P == EdgeIdxOf(post, N)
       Q == {j \in Idx(post) : IsEdgeLine(post[j])} IN
   [s |-> s, k |-> args.k, N |-> N, E |-> E, P |-> P,
+   cross |-> {j \in P : Cardinality(RefIdSet(post[j]) \cap N) > 1},
    pc |-> {<<i, EdgeCore(pre[i])>> : i \in E},
    bc |-> {<<j, EdgeCore(BackTo(post[j], N, s))>> : j \in P},
    qc |-> {<<j, EdgeCore(post[j])>> : j \in Q}]
 CoreIn(S, i) == (CHOOSE p \in S : p[1] = i)[2]
 CountCore(S, c) == Cardinality({p \in S : p[2] = c})
 
-\* "no link is invented": every edge on one of the k segments is a copy of an edge of the original
-NothingInvented(x) == \A q \in x.bc : \E p \in x.pc : q[2] = p[2]
+\* "no link is invented": every edge on one of the k segments is a copy of an edge of the
+\* original, and none joins two different members (the copy of an edge of the original with
+\* itself is an edge of a member with itself)
+NothingInvented(x) == x.cross = {} /\ \A q \in x.bc : \E p \in x.pc : q[2] = p[2]
 
-\* the edge pre[i] of the segment, copied for member m of the group: present in post
-\* exactly as often as pre holds edges with the same content
+\* the edge pre[i] of the segment, copied for member m of the group (every mention of the
+\* segment replaced by m: an edge of the segment with itself becomes an edge of m with itself):
+\* present in post exactly as often as pre holds edges with the same content
 HasCopyFor(pre, x, i, m) ==
   CountCore(x.qc, EdgeCore(SubstId(pre[i], x.s, m))) = CountCore(x.pc, CoreIn(x.pc, i))
-\* a self-edge: some copy of it lies on m, both ends inside the group
-HasSelfCopyOn(post, x, i, m) ==
-  LET c == CoreIn(x.pc, i) IN
-  \E q \in x.bc : q[2] = c /\ RefIdSet(post[q[1]]) \subseteq x.N /\ m \in RefIdSet(post[q[1]])
 
 \* the edges that distribution on end d may share out: dovetails of the segment on that end
 OnEnd(pre, s, i, d) == d # "none" /\ d \in DoveEndsOn(pre[i], s)
@@ -129,9 +138,7 @@ OnEnd(pre, s, i, d) == d # "none" /\ d \in DoveEndsOn(pre[i], s)
 \*  neighbours with the same orientations and overlaps" -- for everything that is not
 \*  being distributed
 EdgesOKx(pre, post, x, d) ==
-  \A i \in x.E : ~OnEnd(pre, x.s, i, d) =>
-     \A m \in x.N : IF IsSelfEdge(pre[i], x.s) THEN HasSelfCopyOn(post, x, i, m)
-                                              ELSE HasCopyFor(pre, x, i, m)
+  \A i \in x.E : ~OnEnd(pre, x.s, i, d) => \A m \in x.N : HasCopyFor(pre, x, i, m)
 
 \* "the links of that end are shared out among the copies so that every former neighbour
 \*  stays linked to at least one copy and no link is invented"
@@ -141,7 +148,7 @@ DistOKx(pre, post, x, d) ==
         \E q \in x.bc : /\ q[2] = c
                         /\ IsSelfEdge(pre[i], x.s) => RefIdSet(post[q[1]]) \subseteq x.N
   \* never more copies of a link than a full copy would make
-  /\ \A i \in x.E : (OnEnd(pre, x.s, i, d) /\ ~IsSelfEdge(pre[i], x.s)) =>
+  /\ \A i \in x.E : OnEnd(pre, x.s, i, d) =>
         \A m \in x.N :
           CountCore(x.qc, EdgeCore(SubstId(pre[i], x.s, m))) <= CountCore(x.pc, CoreIn(x.pc, i))
 
@@ -168,14 +175,15 @@ RestOf(L, N) == BagOf(SelectSeq(L, LAMBDA l : ~MentionsAny(l, N)))
 RestOK(pre, post, args) ==
   RestOf(pre, {args.seg}) = RestOf(post, Group(pre, post, args.seg))
 
-\* the set of failing clauses for k >= 2 (names as in the harness)
-MultiplyFails(pre, post, args) ==
+\* the set of failing clauses for k >= 2 (names as in the harness); used: identifiers in use
+\* besides those of the lines of pre
+MultiplyFailsU(pre, post, args, used) ==
   LET x == Ctx(pre, post, args)
       D == EndsAllowed(args.policy)
       ni == NothingInvented(x)
       eOK == IF ni THEN {d \in D : EdgesOKx(pre, post, x, d)} ELSE {}
       dOK == IF ni THEN {d \in D : DistOKx(pre, post, x, d)} ELSE {} IN
-  (IF NamesOK(pre, post, args) THEN {} ELSE {"C15.names"})
+  (IF NamesOK(pre, post, args, used) THEN {} ELSE {"C15.names"})
   \cup (IF CopiesOK(pre, post, args) THEN {} ELSE {"C15.copies"})
   \cup (IF ~ni THEN {"C15.edges"} \cup (IF args.policy = "off" THEN {} ELSE {"C15.distribution"})
         ELSE IF eOK \cap dOK # {} THEN {}
@@ -184,6 +192,8 @@ MultiplyFails(pre, post, args) ==
              \cup (IF eOK # {} /\ dOK # {} THEN {"C15.edges", "C15.distribution"} ELSE {}))
   \cup (IF CountsOKx(pre, post, x) THEN {} ELSE {"C15.counts"})
   \cup (IF RestOK(pre, post, args) THEN {} ELSE {"C15.rest"})
+
+MultiplyFails(pre, post, args) == MultiplyFailsU(pre, post, args, {})
 
 -----------------------------------------------------------------------------
 (* placeholders *)
